@@ -21,10 +21,10 @@ from dsim.seams.simhash import SimBytes
 NAME = "wallet"
 PROPS = ["C13", "C07"]
 COMPONENTS = {
-    "real": ["pycoin.services.tx_db.TxDb on a simulated disk", "pycoin.coins.tx_utils.create_tx / distribute_from_split_pool",
+    "real": ["pycoin.services.tx_db.TxDb on a simulated disk", "pycoin.coins.tx_utils.create_tx / create_signed_tx / distribute_from_split_pool (three build routes)",
              "Tx.validate_unspents / unspents_from_db / fee / total_in / total_out", "Tx.parse / Tx.stream via cache files",
              "Spendable.as_text/from_text/as_dict/from_dict", "pycoin.convention conversions", "convention.tx_fee"],
-    "stub": ["ledger (ground truth)", "providers (plan-driven: honest, fail, none, other tx, tampered tx)",
+    "stub": ["ledger (ground truth)", "providers (plan-driven: honest, fail, none, other tx, tampered tx; through TxDb, unfiltered, or a plain dict)",
              "file system (SimFS: torn / lost / empty / flipped / misdirected files, EIO, ENOSPC, EACCES, crash)"],
 }
 RULE = ("plans = ledger x provider behaviour x spendable lies x payable lists (fixed / unspecified) x fees x storage fault "
